@@ -6,6 +6,7 @@ import (
 	"fmt"
 	"go/types"
 	"strings"
+	"time"
 
 	"golang.org/x/tools/go/ssa"
 )
@@ -1338,6 +1339,10 @@ func (e *Engine) mergeFinals(basePC []*Term, nAlloc int, finals []*State) []*Sta
 	}
 	var groups []*group
 	for _, fin := range finals {
+		if !e.deadline.IsZero() && time.Now().After(e.deadline) {
+			// out of time: do not merge further (the caller sees the remaining states as cut)
+			fin.cut = "item time budget exceeded"
+		}
 		c := And(fin.pc[base:]...)
 		merged := false
 		if fin.panicd == "" && fin.cut == "" {
